@@ -323,12 +323,16 @@ TEXT = {
                       "least once (completeness; this is the clause that D6 violated); gfa_links_complete_ginv derives the symmetry needed from "
                       "the node-level invariant GInv, which is proved for every graph compress_kmers builds (gfa_complete_of_compress), for the result of compress_graph without censoring (C20_gfa_complete_after_recompress) and for the sharded pipeline's final graph. gfa_no_duplicate: for EVERY graph no two L records name the same pair of ports in "
                       "either order (edges of one side go to pairwise different ports; the id filters admit each adjacency from one end only) - "
-                      "with completeness: exactly once. JSON well-formedness and serde round trips are "
+                      "with completeness: exactly once. JSON: the writer is modelled statement by statement (index tests for the node separators, the "
+                      "wrote_any flag, the per-group `idx < len-1` comma test - where D5 lived) and proved to emit exactly the document jsonDoc, two "
+                      "arrays whose items are separated and never followed by commas, one item per node and one per right-going link, for every "
+                      "graph including empty, single-node and link-free ones (C20_json_writer_eq_document, C20_json_lists_every_node/_link). That "
+                      "jsonDoc parses and the serde round trips are "
                       "decided by execution: records re-read into port pairs and counted, the JSON parsed with serde_json and its counts compared "
                       "with the graph, round trips of k-mers / strings / Lmers / extension sets / graphs compared by equality and queries. Two "
                       "defects (D5 JSON trailing comma, D6 missing right hairpin) were found by this check and repaired in /repo.",
         "design_ref": "DESIGN.md section 6, C20",
         "level_note": COMMON_NOTE + "Partial: persistence tested, not proved (derived serde code is outside the model).",
-        "technique": "Lean 4 proof (GFA link soundness/completeness by case analysis) + verbatim text correspondence + serde round-trip tests",
+        "technique": "Lean 4 proof (GFA link soundness/completeness by case analysis; JSON comma logic = separated arrays by fold/intercalate algebra) + verbatim text correspondence + serde round-trip tests",
     },
 }
